@@ -188,6 +188,14 @@ inductive Ctx where
   /-- value-receiver method invoked through an interface (`var i I = x; i.m()`, also `I = &x`): the callee's receiver is
       initialised from the value held by (or pointed to from) the interface -/
   | ifaceCall
+  /-- `defer x.M(args)`: the receiver is evaluated and copied when the defer statement executes
+      (the deferred function is the method value `x.M`, statements.go DeferStmt → delegatedCall → expressions.go:616) -/
+  | deferRecv
+  /-- `go x.M(args)`: the receiver is evaluated and copied when the go statement executes (same path) -/
+  | goRecv
+  /-- the automatic dereference of a pointer operand in `p.M` / `e.M` through an embedded `*T`: a temporary that
+      denotes the pointee itself (makeReceiver re-types the pointer as the pointee: the struct/array pointer IS the object) -/
+  | deref
 deriving DecidableEq, Repr
 
 inductive CtxKind where
@@ -199,8 +207,8 @@ deriving DecidableEq, Repr
 def Ctx.kind : Ctx → CtxKind
   | .assign | .elemStore | .fieldStore | .ptrStore => .inPlace
   | .define | .arg | .rangeValue | .rangeOperand | .send | .mapStore | .litElem | .box | .recvValue | .methodValue
-  | .boundCall | .ifaceCall => .newLocation
-  | .result | .recv | .mapLoad | .unbox => .temporary
+  | .boundCall | .ifaceCall | .deferRecv | .goRecv => .newLocation
+  | .result | .recv | .mapLoad | .unbox | .deref => .temporary
 
 /-- Does the translator emit `$clone(…)` when a value of array/struct type flows through the context?
     Transcribed from /repo/compiler (anchors = file:line of the emission, or of the place where none is emitted). -/
@@ -221,6 +229,13 @@ def cloneAt : Ctx → Bool
   | .methodValue => true    -- expressions.go:616 `$methodVal(makeReceiver(e), …)` → :963
   | .boundCall => true      -- functions.go translateFunctionBody prologue: `recv = $clone(this[.$val], T)` for array/struct receivers (repair of C07-method-value-shared-receiver)
   | .ifaceCall => true      -- same prologue: the callee copies its receiver whoever calls it (repair of C07-iface-dispatch-shared-receiver)
+  -- RECEIVER-EVALUATION RULE: the receiver of a method value / defer / go statement is copied at binding time
+  -- according to the METHOD's declared receiver type (`methodsRecvType`), whatever the operand's static type
+  -- (value, pointer with automatic dereference, path through embedded `T` / `*T`, pointer to a named array type,
+  -- element, map value): makeReceiver `translateImplicitConversionWithCloning(x, methodsRecvType)`.
+  | .deferRecv => true      -- expressions.go makeReceiver (via delegatedCall → translateExpr(expr.Fun) → `$methodVal(makeReceiver(e), …)`)
+  | .goRecv => true         -- same path
+  | .deref => false         -- makeReceiver `x = fc.setType(x, methodsRecvType)`: no object is created
   | .result => false        -- statements.go:786  translateResults → translateImplicitConversion
   | .recv => false          -- expressions.go `$recv` result `[0]`
   | .mapLoad => false       -- expressions.go map index: `entry.v`
